@@ -6,6 +6,7 @@ package routes
 import (
 	"fmt"
 	"math/rand"
+	"sort"
 	"strings"
 
 	"verifharness/internal/synth"
@@ -79,11 +80,11 @@ var types = []typ{
 type gen struct {
 	taken     map[string]bool
 	enumQuery bool
-	rng      *rand.Rand
-	id       string
-	mainPath string
-	nvar     int
-	nh       int
+	rng       *rand.Rand
+	id        string
+	mainPath  string
+	nvar      int
+	nh        int
 }
 
 func (g *gen) chance(p float64) bool { return g.rng.Float64() < p }
@@ -113,6 +114,26 @@ func (g *gen) pickType(inner bool, composite bool) typ {
 }
 
 var names = []string{"id", "my-bool", "page", "q", "file_2", "value_1", "json-field", "param-name", "x", "y", "z", "né", "a b", "with\"quote", "k1", "k2", "k3", "k4"}
+
+// name2: a name new to the namespace `used` (query parameters and form values are two
+// namespaces); one time in four, when there is one, a name the other namespace already has
+func (g *gen) name2(used, other map[string]bool) string {
+	if g.chance(0.25) {
+		var cands []string
+		for n := range other {
+			if !used[n] {
+				cands = append(cands, n)
+			}
+		}
+		sort.Strings(cands)
+		if len(cands) > 0 {
+			n := cands[g.rng.Intn(len(cands))]
+			used[n] = true
+			return n
+		}
+	}
+	return g.name(used)
+}
 
 func (g *gen) name(used map[string]bool) string {
 	for {
@@ -159,7 +180,7 @@ func (g *gen) handler(form string) *Handler {
 		}
 	}
 	h.Inner = form == "importedFunc" || form == "importedMethod"
-	used := map[string]bool{}
+	used, usedForm := map[string]bool{}, map[string]bool{}
 	n := g.rng.Intn(6)
 	if g.chance(0.15) {
 		n = 0
@@ -176,11 +197,11 @@ func (g *gen) handler(form string) *Handler {
 			st = Stmt{Kind: pick(g.rng, []string{"assign", "guarded"}), Items: []Item{it}}
 		case k == 1 && !hasFile:
 			hasFile = true
-			st = Stmt{Kind: "assign", Items: []Item{{K: "formFile", Name: g.name(used)}}}
+			st = Stmt{Kind: "assign", Items: []Item{{K: "formFile", Name: g.name2(usedForm, used)}}}
 		case k == 2 && !hasJSON:
 			hasJSON = true
 			t := g.pickType(h.Inner, false)
-			st = Stmt{Kind: "assign", Items: []Item{{K: "formJSON", Name: g.name(used), Ty: g.q(t.tmpl), tmpl: t.tmpl}}}
+			st = Stmt{Kind: "assign", Items: []Item{{K: "formJSON", Name: g.name2(usedForm, used), Ty: g.q(t.tmpl), tmpl: t.tmpl}}}
 		case k == 3:
 			tm := pick(g.rng, []string{"{M}.IdDossier", "{M}.IdDossier", "{M}.Archived", "{M}.Label", "{M}.Ratio"})
 			if h.Inner {
@@ -188,7 +209,7 @@ func (g *gen) handler(form string) *Handler {
 			} else if g.enumQuery && g.chance(0.5) {
 				tm = "{M}.Color"
 			}
-			st = Stmt{Kind: "assign", Items: []Item{{K: "queryInt", Name: g.name(used), Ty: g.q(tm), tmpl: tm}}}
+			st = Stmt{Kind: "assign", Items: []Item{{K: "queryInt", Name: g.name2(used, usedForm), Ty: g.q(tm), tmpl: tm}}}
 		case k == 4 && !hasJSON:
 			// a junk statement
 			st = Stmt{Kind: "junk"}
@@ -204,7 +225,12 @@ func (g *gen) handler(form string) *Handler {
 				if (k == "queryBool" || k == "queryInt64") && form == "importedFunc" {
 					k = "query"
 				}
-				it := Item{K: k, Name: g.name(used)}
+				it := Item{K: k}
+				if k == "formValue" {
+					it.Name = g.name2(usedForm, used)
+				} else {
+					it.Name = g.name2(used, usedForm)
+				}
 				switch k {
 				case "query":
 					it.Ty = "string"
